@@ -5,7 +5,7 @@ Driver commands of property C17.
 
 `run <cfg> <method> <url> <params> <defaults> <headers> <cookies> <body> <netrc> <cparse> <oracles> <chain>`
 
-* cfg      `max,allow,trust`
+* cfg      `max,allow,trust,retry`
 * url      `scheme,host,port,hasHost,cred,hostHdr,target`   (`~` = no credentials)
 * params   `~` | request-target with the params applied
 * defaults, headers  `~` | `name,value;…`   (session default headers, caller headers)
@@ -14,7 +14,8 @@ Driver commands of property C17.
 * netrc    `~` | `host,auth;…`
 * cparse   `~` | `raw:name,value;…/…`                        (parse_cookie_header oracle)
 * oracles  `~` | per hop `J@R` joined by `/`: jar selection and per-request selection
-* chain    `~` | responses joined by `/`: `status:sc:N|I|H|B` or `status:sc:U:<url>`
+* chain    `~` | replies joined by `/`: `status:sc:N|I|H|B`, `status:sc:U:<url>`, or `D` (peer closed
+           the connection without answering)
 
 Strings are `.`-separated decimal code points (`-` = empty).
 Reply: one `scheme,host,port method target headers body` group per request, then
@@ -65,6 +66,9 @@ def parseResp (s : String) : Option Resp :=
     pure { status := st, loc := .ok u, sc := sc }
   | _ => none
 
+def parseReply (s : String) : Option Reply :=
+  if s == "D" then some .drop else (parseResp s).map .resp
+
 def parseList (s : String) (f : String → Option α) : Option (List α) :=
   if s == "~" then some [] else (s.splitOn "/").mapM f
 
@@ -96,6 +100,7 @@ def showErr : Err → String
   | .badRequest => "valueError"
   | .tooManyRedirects => "tooManyRedirects"
   | .payloadConsumed => "payloadConsumed"
+  | .disconnected => "disconnected"
 
 def showOutcome : Outcome → String
   | .ok f h => s!"ok,{f}," ++ (if h.isEmpty then "~" else ".".intercalate (h.map toString))
@@ -110,7 +115,8 @@ def handle : List String → String
   | ["run", cfg, method, url, params, defaults, headers, cookies, body, netrc, cparse, oracles, chain] =>
     let r : Option String := do
       let cfg ← match cfg.splitOn "," with
-        | [m, a, t] => do pure ({ maxRedirects := (← m.toNat?), allowRedirects := parseBool a, trustEnv := parseBool t } : Cfg)
+        | [m, a, t, rc] => do pure ({ maxRedirects := (← m.toNat?), allowRedirects := parseBool a, trustEnv := parseBool t,
+                                      retryConnection := parseBool rc } : Cfg)
         | _ => none
       let method ← parseStr method
       let url ← parseUrlFields (url.splitOn ",")
@@ -122,14 +128,14 @@ def handle : List String → String
       let netrc ← parsePairs netrc
       let cparse ← parseList cparse parseCparse
       let oracles ← parseList oracles parseOracle
-      let chain ← parseList chain parseResp
+      let chain ← parseList chain parseReply
       let env : Env :=
         { jar := oracleJar
           reqSel := fun hop _ _ => ((oracles.drop hop).head?.map (·.2)).getD []
           netrc := fun h => (netrc.find? (fun kv => kv.1 == h)).map (·.2)
           parseCookie := fun raw => ((cparse.find? (fun kv => kv.1 == raw)).map (·.2)).getD [] }
-      let st := init env url params method defaults headers cookies body (oracles.map (·.1))
-      let res := run env cfg st chain
+      let st := initF env cfg url params method defaults headers cookies body (oracles.map (·.1))
+      let res := runF env cfg st chain
       let evs := if res.events.isEmpty then "~" else ",".intercalate (res.events.map showEv)
       pure (" # ".intercalate (res.sent.map showSent ++ ["E " ++ evs, "O " ++ showOutcome res.out]))
     r.getD "bad-op"
